@@ -56,6 +56,16 @@ Definition get_scale_geo (v : val) : option scale_geo :=
                  | _, _ => None end
   | _ => None end.
 
+Definition bad_args : val := bad.
+Definition get_failure (v : val) : option (t3 * outcome arr) :=
+  match v with
+  | VL [lo; VT k] =>
+      match get_t3 lo with
+      | Some lo => if String.eqb k "AccessErr" then Some (lo, AccessErr)
+                   else if String.eqb k "FormatErr" then Some (lo, FormatErr) else None
+      | None => None end
+  | _ => None end.
+
 Definition mk_geom (os ns oc nc : t3) (ch : Z) : geom :=
   {| g_os := os; g_ns := ns; g_oc := oc; g_nc := nc; g_ch := ch |}.
 
@@ -120,6 +130,18 @@ Definition d_c08 (op : string) (a : val) : option val :=
                             (tile_level ds g (arr_of_list ch os data)))
           else Some bad
       | _, _, _, _, _, _ => Some bad end
+  | "tile_level_src", VL [m; os; ns; oc; nc; VZ ch; data; VL bad] =>
+      (* as tile_level, but the source scale is a chunk store in which the
+         chunks whose origins are listed fail to read (AccessErr / FormatErr) *)
+      match get_method m, get_t3 os, get_t3 ns, get_t3 oc, get_t3 nc, getZs data,
+            all_some (map get_failure bad) with
+      | Some ds, Some os, Some ns, Some oc, Some nc, Some data, Some bad =>
+          let g := mk_geom os ns oc nc ch in
+          if geom_pos g then
+            Some (v_outcome (fun l => VL (map v_chunk l))
+                            (tile_level_src ds g (src_with_failures (arr_of_list ch os data) bad)))
+          else Some bad_args
+      | _, _, _, _, _, _, _ => Some bad_args end
   | "ds_whole", VL [m; f; VZ ch; sh; data] =>
       match get_method m, get_t3 f, get_t3 sh, getZs data with
       | Some ds, Some f, Some sh, Some data => Some (v_arr (ds f (arr_of_list ch sh data)))
